@@ -303,6 +303,30 @@ func c19(c *Ctx) {
 		r.Check(len(facts) >= 4 && len(bad) == 0, "PATH", fkey(f)+"/bound-pod=>Update", c.Pos(f.Pos()), "every informative event of a bound pod rebuilds its allocation", "the restore path can return (at "+strings.Join(bad, ",")+") for a bound pod with a persisted allocation without resourceManager.Update: an event whose annotations equal the previous version (e.g. the bind itself after a restart) no longer repairs a cache that misses the allocation")
 	}
 
+	r.Rule("FLOW(write-back): in nodenumaresource appendResourceSpecIfMissed the spec handed to SetResourceSpec is the one parsed from the object's own annotation (GetResourceSpec), with fields filled in - never a newly built ResourceSpec, which would drop what the user declared (e.g. the CPU exclusive policy the rebuild after a restart reads back)")
+	if f := c.Fn(numaPkg, "", "appendResourceSpecIfMissed"); f != nil {
+		n := 0
+		for _, cl := range an.Calls(f, false) {
+			if an.ShortCallee(cl.Common()) != "SetResourceSpec" {
+				continue
+			}
+			n++
+			ok := true
+			var srcs []string
+			for _, v := range an.Sources(cl.Common().Args[1], nil) {
+				call, idx := an.ResultOfCall(v)
+				if call == nil || an.ShortCallee(&call.Call) != "GetResourceSpec" || idx != 0 {
+					ok = false
+					srcs = append(srcs, an.Path(v))
+				}
+			}
+			r.Check(ok, "FLOW", fkey(f)+"/writes-back-the-parsed-spec", c.InstrPos(cl), "the parsed spec is written back", "the spec written back can be "+strings.Join(srcs, ", ")+" instead of the object's own parsed spec: fields the user declared are lost from the persisted annotation")
+		}
+		if n == 0 {
+			r.Unknown("FLOW", fkey(f)+"/writes-back-the-parsed-spec", c.Pos(f.Pos()), "SetResourceSpec call not found")
+		}
+	}
+
 	// ---- registration order
 	r.Rule("PATH: in reservation.New registerReservationEventHandler precedes registerPodEventHandler; in elasticquota.New the quota informer sync (ForceSyncFromInformerWithReplace) precedes the pod informer sync")
 	if fn := c.Fn(resvPkg, "", "New"); fn != nil {
